@@ -30,8 +30,8 @@ sim("C04", "WHAT THE RESULT MEANS UNDER EVERY FAULT PLAN (C04_start_result, C04_
     "descriptor/heap/child residue of a failed start and that the negative result is the error of the call that failed first (the cause), under every fault plan; that success implies the program was exec'd (refuted by the known findings D18/D20, which need a second failure).",
     "every call index of 17 option scenarios x errnos (singles exhaustively, pairs sampled), followed by pid / second start / destroy.",
     "Coq theorems (life-cycle of start) + fault enumeration against the implementation")
-sim("C05", "the regenerated ownership table of redirect_destroy is the documented one; foreign types cause no system call; the single close helper; the post-start API closes only descriptors stored in the handle and never the invalid marker; failed start owns nothing.",
-    "balance of whole histories (descriptor table, heap ledger, children) under every fault plan.",
+sim("C05", "MEMORY FOR EVERY FAULT PLAN (C05_start_releases_every_block, HeapSpec): whatever reproc_start returns and whatever fails on the way - any calls failing at any call index, allocation failures at any point of the program-path copy (incl. the getcwd/realloc growth loop) and of the environment copy, any latencies, whatever the forked child does - the caller's heap afterwards holds exactly the blocks it held before (ownership invariant over the allocation ledger: every block start allocates is released exactly once; the forked child's allocations are made in its own copy); the regenerated ownership table of redirect_destroy is the documented one; foreign types cause no system call; the single close helper; the post-start API closes only descriptors stored in the handle and never the invalid marker; failed start owns nothing.",
+    "the descriptor-table and child balance of whole histories under every fault plan (decided by the tie's ledger monitors); memory of the other API calls (poll's scratch array: footprint shows calloc/free pairs, drain's string sink: ProofsDrain + unit tie).",
     "single-fault enumeration + pairs + random histories with sprinkled faults + closed-FILE streams, all ending in destroy; close-discipline automaton on the parent's trace.",
     "Coq theorems (ownership table, close footprints) + fault enumeration + ledger monitors")
 sim("C06", "every kill/waitpid made by terminate/kill/wait/stop/destroy names the pid stored in the handle, signals are SIGTERM/SIGKILL, none once a status is cached, rejection before start; a successful reap happens only while the handle's child is unreaped: at the moment the waitpid event is logged that pid is a zombie in the world (C06_reap_only_unreaped, every well-formed world).",
